@@ -132,7 +132,7 @@ def display(I, v):
     if isinstance(v, JNum):
         return display(I, v.n)
     if isinstance(v, Ser):
-        return SerStr(v)
+        return v
     if isinstance(v, Opaque) and v.tag == "fmtargs":
         return render_args(I, v)
     return "<%s>" % (type(v).__name__ if not isinstance(v, (Agg, Enum)) else v.ty)
@@ -176,7 +176,7 @@ def json_text(I, v):
                 return [conv(e) for e in x.f[0].a]
             if x.d == 5:
                 m = x.f[0]
-                return {k: conv(m.d[k]) for k in m.keys()}
+                return {k: conv(m.d[k].v) for k in m.keys()}
         raise Unsupported("json text of %r" % (x,))
 
     return _json.dumps(conv(v), separators=(",", ":"), ensure_ascii=False)
@@ -187,7 +187,9 @@ class Formatter:
         self.parts = []
 
     def out(self):
-        return "".join(self.parts)
+        if len(self.parts) == 1:
+            return self.parts[0]
+        return "".join(SerStr(x) if isinstance(x, Ser) else x for x in self.parts)
 
 
 def render_args(I, a):
@@ -230,11 +232,9 @@ def render_args(I, a):
             else:
                 s = debug_str(I, val)
             out.append(s)
-    res = "".join(out)
-    for o in out:
-        if isinstance(o, (SymStr, SerStr)) and len(out) == 1:
-            return o
-    return res
+    if len(out) == 1:
+        return out[0]
+    return "".join(SerStr(o) if isinstance(o, Ser) else o for o in out)
 
 
 def debug_str(I, v):
@@ -289,7 +289,7 @@ def register(I):
     pat = I.pattern
 
     # ------------------------------------------------------------------ identity-like
-    @intr("std::hint::must_use", "std::convert::identity", "std::mem::drop", "core::mem::drop",
+    @intr("std::hint::must_use", "std::convert::identity", "std::mem::drop", "std::mem::drop",
           "std::hint::black_box")
     def _ident(I, a, cc):
         if cc.norm.endswith("drop"):
@@ -326,7 +326,7 @@ def register(I):
             return Ptr(v.c, 0)
         if isinstance(v, (Ptr, MapSlot)):
             return v  # lock guard / Ref / RefMut
-        if isinstance(v, str):
+        if isinstance(v, (str, Ser)):
             return v if not cc.norm.endswith("_mut") else r
         if isinstance(v, (VecV, SliceV)):
             return r
@@ -336,7 +336,7 @@ def register(I):
             return v
         raise Unsupported("Deref of %r (%s)" % (v, cc.norm))
 
-    @pat(r"^<.* as std::convert::AsRef<.*>>::as_ref$", )
+    @pat(r"^<.* as std::convert::AsRef>::as_ref$", )
     def _asref(I, a, cc):
         v = deref(a[0])
         if isinstance(v, str):
@@ -346,7 +346,7 @@ def register(I):
         it = None
         return a[0]
 
-    @pat(r"^<.* as std::borrow::Borrow(Mut)?<.*>>::borrow(_mut)?$")
+    @pat(r"^<.* as std::borrow::Borrow(Mut)?>::borrow(_mut)?$")
     def _borrow(I, a, cc):
         v = deref(a[0])
         if isinstance(v, str):
@@ -385,6 +385,16 @@ def register(I):
     def _box_new(I, a, cc):
         return BoxV(a[0], "box")
 
+    @intr("std::boxed::Box::new_uninit")
+    def _box_uninit(I, a, cc):
+        return BoxV(Agg("MaybeUninit", []), "box")
+
+    @intr("std::boxed::box_assume_init_into_vec_unsafe", "std::boxed::Box::assume_init")
+    def _box_into_vec(I, a, cc):
+        if cc.norm.endswith("assume_init"):
+            return a[0]
+        return a[0].c[0]
+
     @intr("std::sync::Arc::downgrade", "std::rc::Rc::downgrade")
     def _downgrade(I, a, cc):
         return WeakV(deref(a[0]))
@@ -418,7 +428,7 @@ def register(I):
             return WeakV(v.t)
         return clone_value(v)
 
-    @pat(r"^<.* as std::cmp::PartialEq(<.*>)?>::(eq|ne)$")
+    @pat(r"^<.* as std::cmp::PartialEq>::(eq|ne)$")
     def _eq(I, a, cc):
         r = struct_eq(I, a[0], a[1])
         if cc.norm.endswith("::ne"):
@@ -459,7 +469,7 @@ def register(I):
         d = -a[0].d
         return Enum("Ordering", d, [], ["Less", "Equal", "Greater"][d + 1])
 
-    @pat(r"^<.* as std::cmp::PartialOrd(<.*>)?>::(lt|le|gt|ge)$")
+    @pat(r"^<.* as std::cmp::PartialOrd>::(lt|le|gt|ge)$")
     def _pord(I, a, cc):
         x = deref_all(a[0])
         y = deref_all(a[1])
@@ -481,23 +491,23 @@ def register(I):
         return y if ge else x
 
     # ------------------------------------------------------------------ fmt
-    @intr("core::fmt::rt::Argument::new_display", "core::fmt::rt::Argument::new_debug",
-          "core::fmt::rt::Argument::new_lower_hex", "core::fmt::rt::Argument::new_upper_hex")
+    @intr("std::fmt::rt::Argument::new_display", "std::fmt::rt::Argument::new_debug",
+          "std::fmt::rt::Argument::new_lower_hex", "std::fmt::rt::Argument::new_upper_hex")
     def _fmtarg(I, a, cc):
         return Opaque("fmtarg", ("display" if cc.norm.endswith("display") else "debug", a[0]))
 
-    @intr("std::fmt::Arguments::new", "core::fmt::Arguments::new")
+    @intr("std::fmt::Arguments::new", "std::fmt::Arguments::new")
     def _args_new(I, a, cc):
         tmpl = deref_all(a[0])
         arr, lo, hi = as_list(a[1])
         tl, tlo, thi = as_list(tmpl)
         return Opaque("fmtargs", (tl[tlo:thi], arr[lo:hi]))
 
-    @intr("std::fmt::Arguments::from_str", "core::fmt::Arguments::from_str")
+    @intr("std::fmt::Arguments::from_str", "std::fmt::Arguments::from_str")
     def _args_str(I, a, cc):
         return Opaque("fmtargs", (a[0], []))
 
-    @intr("std::fmt::format", "alloc::fmt::format")
+    @intr("std::fmt::format", "std::fmt::format")
     def _format(I, a, cc):
         return render_args(I, a[0])
 
@@ -531,9 +541,9 @@ def register(I):
         return ok(UNIT)
 
     # panics
-    @intr("std::rt::begin_panic", "core::panicking::panic", "core::panicking::panic_fmt", "std::rt::panic_fmt",
-          "core::panicking::panic_display", "core::panicking::panic_explicit", "core::option::expect_failed",
-          "core::result::unwrap_failed", "core::panicking::unreachable_display", "core::panicking::panic_nounwind")
+    @intr("std::rt::begin_panic", "std::panicking::panic", "std::panicking::panic_fmt", "std::rt::panic_fmt",
+          "std::panicking::panic_display", "std::panicking::panic_explicit", "std::option::expect_failed",
+          "std::result::unwrap_failed", "std::panicking::unreachable_display", "std::panicking::panic_nounwind")
     def _panic(I, a, cc):
         msg = ""
         if a:
@@ -774,7 +784,7 @@ def register(I):
             return Enum("ControlFlow", 0, [r.f[0]], "Continue")
         return Enum("ControlFlow", 1, [none()], "Break")
 
-    @pat(r"^<std::result::Result as std::ops::FromResidual<.*>>::from_residual$")
+    @pat(r"^<std::result::Result as std::ops::FromResidual>::from_residual$")
     def _r_from_residual(I, a, cc):
         e = a[0].f[0]
         # Result<T, F> from Result<Infallible, E>: convert with From when F != E
@@ -793,12 +803,12 @@ def register(I):
             e = I.call_raw("<%s as std::convert::From<%s>>::from" % (F, E), [e], cc.frame)
         return err(e)
 
-    @pat(r"^<std::option::Option as std::ops::FromResidual<.*>>::from_residual$")
+    @pat(r"^<std::option::Option as std::ops::FromResidual>::from_residual$")
     def _o_from_residual(I, a, cc):
         return none()
 
     # ------------------------------------------------------------------ conversions
-    @pat(r"^<.* as std::convert::Into<.*>>::into$")
+    @pat(r"^<.* as std::convert::Into>::into$")
     def _into(I, a, cc):
         raw = cc.raw
         j = match_close(raw, 0)
@@ -811,7 +821,7 @@ def register(I):
             return a[0]
         return I.call_raw("<%s as std::convert::From<%s>>::from" % (dst, src), a, cc.frame, cc.dest_ty)
 
-    @pat(r"^<.* as std::convert::From<.*>>::from$")
+    @pat(r"^<.* as std::convert::From>::from$")
     def _from(I, a, cc):
         raw = cc.raw
         j = match_close(raw, 0)
@@ -863,7 +873,7 @@ def register(I):
             return v
         raise Unsupported("From<%s> for %s" % (src, dst))
 
-    @pat(r"^<.* as std::convert::TryFrom<.*>>::try_from$", r"^<.* as std::convert::TryInto<.*>>::try_into$")
+    @pat(r"^<.* as std::convert::TryFrom>::try_from$", r"^<.* as std::convert::TryInto>::try_into$")
     def _try_from(I, a, cc):
         t = cc.ret_ty()
         m = re.match(r"std::result::Result<(\w+),", t or "")
@@ -892,7 +902,7 @@ def register(I):
         arr, lo, hi = as_list(a[0])
         return VecV([clone_value(x) for x in arr[lo:hi]])
 
-    @intr("std::intrinsics::discriminant_value", "core::intrinsics::discriminant_value", "std::mem::discriminant")
+    @intr("std::intrinsics::discriminant_value", "std::intrinsics::discriminant_value", "std::mem::discriminant")
     def _discr(I, a, cc):
         return deref(a[0]).d
 
@@ -904,6 +914,16 @@ def register(I):
     def _env_var(I, a, cc):
         return err(Opaque("VarError"))
 
-    @intr("std::ptr::drop_in_place", "core::ptr::drop_in_place")
+    @pat(r"^<.* as std::ops::Fn(Mut|Once)?>::call(_mut|_once)?$")
+    def _fn_call(I, a, cc):
+        tup = a[1]
+        args = list(tup.f) if isinstance(tup, Agg) else []
+        return I.call_value(a[0], args, cc.frame, cc.dest_ty)
+
+    @pat(r"^<.* as std::ops::Drop>::drop$")
+    def _drop(I, a, cc):
+        return UNIT
+
+    @intr("std::ptr::drop_in_place")
     def _dip(I, a, cc):
         return UNIT
